@@ -7,7 +7,7 @@ from harness.lie import rm_to_np, FnCache, rot, so3_param
 from harness import explog as E
 
 PID = "C03"
-OPS = {"log_so3", "log_se3", "log_se23", "log_se2", "exp_so3", "exp_se3_gen", "exp_se23_gen"}
+OPS = {"log_so3", "log_se3", "log_se23", "log_se2", "exp_so3", "exp_se3_gen", "exp_se23_gen", "exp_prod"}
 
 
 def call(f, *args):
@@ -57,6 +57,33 @@ def replay(run, cache, tv):
             cmp.vec(f"{k}/principal/{cell}/{sgn}", "log(X) is not the principal (angle <= pi) vector of X's rotation / V^-1 p", out[0], want, tv)
         else:
             run.count("noncanonical_mrp_roundtrip_only")
+    elif op == "exp_prod":
+        # log on direct products: componentwise log of a group element given by its exact parameters
+        # (factor order and factor kinds chosen so that group and algebra parameter counts differ
+        #  before a later factor: quaternion 4/3, DCM 9/3)
+        h = tv["h"]; hp = [-c for c in h] if h[0] < 0 else list(h)
+        r3 = np.array(tv["x"], float)
+        omega = principal_vec(hp)
+        c, s_, hh = tv["cs"]; th = math.atan2(s_, c)
+        rho = np.array(tv["rho"], float)
+        cases = [("SO3quat*R3", L.SO3Quat * L.R3, np.concatenate([so3_param("quat", h), r3]), np.concatenate([omega, r3])),
+                 ("SO3dcm*R3", L.SO3Dcm * L.R3, np.concatenate([so3_param("dcm", h), r3]), np.concatenate([omega, r3])),
+                 ("R3*SO3quat*SO3quat", L.R3 * L.SO3Quat * L.SO3Quat,
+                  np.concatenate([r3, so3_param("quat", h), so3_param("quat", hp)]), np.concatenate([r3, omega, omega])),
+                 ("SO2*SO3quat*R2", L.SO2 * L.SO3Quat * L.R2,
+                  np.concatenate([[th], so3_param("quat", h), rho]), np.concatenate([[th], omega, rho]))]
+        for name, G, a, want in cases:
+            try:
+                got = np.array(ca.DM(G.elem(ca.DM(a)).log().param)).flatten()
+            except Exception as ex:     # noqa
+                run.violation(f"({name})/log/raises", f"{type(ex).__name__}: {ex}", {"tv": tv}); continue
+            cmp.vec(f"({name})/log/principal/{cell or 'prod'}", "direct-product log differs from the componentwise principal logs", got, want, tv)
+            try:
+                back = np.array(ca.DM(G.algebra.elem(ca.DM(got)).exp(G).to_Matrix()))
+                M = np.array(ca.DM(G.elem(ca.DM(a)).to_Matrix()))
+                cmp.vec(f"({name})/log/exp_log_roundtrip/{cell or 'prod'}", "exp(log X) is not X on a direct product", back, M, tv)
+            except Exception as ex:     # noqa
+                run.violation(f"({name})/log/raises", f"{type(ex).__name__}: {ex}", {"tv": tv})
     elif op == "log_se2":
         c, s, h = tv["cs"]; th = math.atan2(s, c)
         if tv.get("wrap"):
